@@ -95,3 +95,26 @@ Proof.
   split; [vm_compute; reflexivity|]. split; [vm_compute; reflexivity|].
   exact (inv_core_after_param_change_lemma _ _ (inv_core_of_inv _ I) SD).
 Qed.
+
+(** the parameter-independent clauses survive ANY sequence of parameter changes that keep the denoms ... *)
+Lemma inv_core_after_param_changes : forall Ps s, InvCore s ->
+  (forall P', In P' Ps -> same_denoms (st_params s) P') ->
+  InvCore (fold_left set_params Ps s).
+Proof.
+  induction Ps as [|P' Ps IH]; intros s C H; simpl; [exact C|].
+  apply IH; [exact (inv_core_after_param_change_lemma s P' C (H P' (or_introl eq_refl)))|].
+  intros P'' Hin d. unfold set_params. sproj. rewrite <- (H P' (or_introl eq_refl) d). exact (H P'' (or_intror Hin) d).
+Qed.
+
+(** ... and the WHOLE invariant is back as soon as a change installs limits that cover the usage again:
+    after an incompatible cut, a later change (or the usage shrinking and any later covering change)
+    restores every theorem about the histories that follow *)
+Lemma inv_restored_by_covering_change s P' : InvCore s -> Strict s ->
+  same_denoms (st_params s) P' -> covers s P' -> Inv (set_params s P') /\ Strict (set_params s P').
+Proof.
+  intros C S SD CV. split; [|exact S]. unfold set_params. constructor; sproj; try apply C.
+  - intros id c Hin. exact (wfc_params _ _ _ _ SD (ic_wfc _ C _ _ Hin)).
+  - intros d p' Hp'. destruct (same_denoms_lookup _ _ _ _ SD Hp') as (p & Hp).
+    destruct (ic_asset _ C d p Hp) as (a & Ha & H1 & H2 & H3 & H4 & _).
+    destruct (CV d p' a Hp' Ha) as [L W]. exists a. auto 10.
+Qed.
